@@ -83,6 +83,8 @@ def canon_expr(expr):
     """the same site whether its index is a counter, a cast counter or the element of a range-for"""
     import re as _re
     out = _div_quot(_re.sub(r'\((?:unsigned long|unsigned int|size_t|int|long)\)(?=\$v|local:)', '', expr or ''))
+    out = out.replace('[front]', '[0]')       # x.front() is x[0]
+    out = _re.sub(r'\$v(?:\.(?!operator)\w+)+(?![\w(])', '$v', out)      # a field of a local aggregate is a local value like any other
     m = _re.match(r'^(\d+<-value:)(.*)$', out)
     if m and '|' in m.group(2):
         out = m.group(1) + '|'.join(sorted(m.group(2).split('|')))       # the alternatives of a value, in one order
